@@ -5,6 +5,8 @@ import (
 	"fmt"
 	"math"
 	"strconv"
+	"strings"
+	"unicode/utf8"
 	"unsafe"
 
 	"github.com/arnodel/golua/lib/base"
@@ -211,6 +213,26 @@ OuterLoop:
 	return fmt.Sprintf(string(outFormat), args...), nil
 }
 
+// quoteString returns a Lua string literal denoting s.  It escapes like Go's
+// strconv.Quote, except that a valid but non-printable rune is written
+// \u{XXX} (Go's \uXXXX and \UXXXXXXXX escapes are not Lua).
+func quoteString(s string) string {
+	var b strings.Builder
+	b.WriteByte('"')
+	for len(s) > 0 {
+		r, width := utf8.DecodeRuneInString(s)
+		if r < utf8.RuneSelf || r == utf8.RuneError && width == 1 || strconv.IsPrint(r) {
+			q := strconv.Quote(s[:width])
+			b.WriteString(q[1 : len(q)-1])
+		} else {
+			fmt.Fprintf(&b, "\\u{%x}", r)
+		}
+		s = s[width:]
+	}
+	b.WriteByte('"')
+	return b.String()
+}
+
 // Quote returns a string representing the value as a valid Lua literal if
 // possible, the boolean returned indicating success or failure.
 func quote(v rt.Value) (string, bool) {
@@ -238,7 +260,7 @@ func quote(v rt.Value) (string, bool) {
 	case rt.BoolType:
 		return strconv.FormatBool(v.AsBool()), true
 	case rt.StringType:
-		return strconv.Quote(v.AsString()), true // An approximation
+		return quoteString(v.AsString()), true
 	default:
 		return "", false
 	}
